@@ -472,6 +472,14 @@ def rule_formulas(ck):
             elif isinstance(st, ast.Assign) and st.value is c and isinstance(st.targets[0], ast.Tuple) and len(st.targets[0].elts) == 2:
                 loads = {n_.id for n_ in all_nodes(f) if isinstance(n_, ast.Name) and isinstance(n_.ctx, ast.Load)}
                 used = {k for k, x in enumerate(st.targets[0].elts) if isinstance(x, ast.Name) and x.id != '_' and x.id in loads}
+            elif isinstance(st, ast.Assign) and st.value is c and len(st.targets) == 1 and isinstance(st.targets[0], ast.Name):
+                # the pair is kept in one name and its components are taken by constant subscripts
+                nm_ = st.targets[0].id
+                lds = [n_ for n_ in all_nodes(f) if isinstance(n_, ast.Name) and n_.id == nm_ and isinstance(n_.ctx, ast.Load)]
+                subs = [getattr(n_, '_parent', None) for n_ in lds]
+                if lds and all(isinstance(p_, ast.Subscript) and p_.value is n_ and isinstance(const_value(p_.slice), int) for n_, p_ in zip(lds, subs)) \
+                        and len(find_assignments(f, nm_)) == len([a_ for a_ in find_assignments(f, nm_) if isinstance(a_.value, ast.Call) and callee(P, f, a_.value) == CL]):
+                    used = {const_value(p_.slice) for p_ in subs}
             if used != {pick}:
                 probs.append('components %s of the result are used; %s uses component %d' % (sorted(used) if used is not None else 'unknown', name, pick))
             (oo.fail('; '.join(probs)) if probs else oo.ok())
